@@ -47,6 +47,8 @@ def enc_val(v):
     if isinstance(v, (int, np.integer)):
         return int(v)
     if isinstance(v, (float, np.floating)):
+        if v == 0 and math.copysign(1.0, float(v)) < 0:
+            return "-0"  # negative zero keeps its own match string
         return frac_str(float(v))
     if isinstance(v, str):
         return {"s": v}
@@ -61,8 +63,9 @@ def dec_val(j):
     if isinstance(j, dict):
         return j["s"]
     if isinstance(j, str):
-        f = Fraction(j)
-        return float(f)
+        if j == "-0":
+            return -0.0
+        return float(Fraction(j))
     return int(j)
 
 
@@ -688,12 +691,282 @@ def run_searcher_scenario(spec):
             "hp_cs": cs}
 
 
+def _approx_cfg(a, b):
+    """configurations equal; float entries up to the round-off of one product (2^-40 relative)"""
+    if a is None or b is None or len(a) != len(b):
+        return a == b
+    for (ka, va), (kb, vb) in zip(a, b):
+        if ka != kb:
+            return False
+        if isinstance(va, str) and isinstance(vb, str):
+            if va == vb:
+                continue
+            if "-0" in (va, vb):
+                return False
+            x, y = Fraction(va), Fraction(vb)
+            if abs(x - y) > max(1, abs(x), abs(y)) / 2 ** 40:
+                return False
+        elif va != vb or type(va) != type(vb):
+            return False
+    return True
+
+
 def compare(inp, impl, model):
-    """canonical equality of every observed key; errors compared by class"""
+    """canonical equality of every observed key; errors compared by class; the float
+    product of PBT's perturbation is computed exactly by the model and compared up to
+    its round-off"""
     from framework import default_compare
 
     if impl is None:
         return None
     if "err" in model and isinstance(model["err"], str) and model["err"].startswith("init: "):
         model = {"err": model["err"][len("init: "):]}
+    if inp.get("op") == "explore" and "out" in model and "explored" in impl:
+        if _approx_cfg(impl["explored"], model["out"].get("explored")):
+            return None
+        return f"explored: impl {impl['explored']} model {model['out'].get('explored')}"
     return default_compare(inp, impl, model)
+
+
+# ---------------------------------------------------------------------------------
+# PBT: `_explore` (reference style) and the suggestions it leads to (monitored)
+
+
+class _RandRecorder:
+    """proxy of PBT's `_random_state`: records `rand()` while `active`"""
+
+    def __init__(self, inner, tape):
+        self._inner, self._tape, self.active = inner, tape, False
+
+    def rand(self, *a, **kw):
+        r = self._inner.rand(*a, **kw)
+        if self.active and not a:
+            self._tape.append(["u", frac_str(float(r))])
+        return r
+
+    def __getattr__(self, name):
+        return getattr(self._inner, name)
+
+
+def _wrap_sample(dom, tape, flag):
+    real = dom.sample  # bound method of the real class
+
+    def sample(*a, **kw):
+        v = real(*a, **kw)
+        if flag["on"]:
+            tape.append(["v", enc_val(v)])
+        return v
+
+    dom.sample = sample
+
+
+def run_pbt_scenario(spec):
+    """spec: {"space", "seed", "n_events", "population_size", "resample_probability", "quantile_fraction", "p2e"}"""
+    import syne_tune.optimizer.schedulers.pbt as pbt_mod
+
+    rng = random.Random(spec["seed"])
+    cs = build_space(spec["space"])
+    max_t = 6
+    sch = PopulationBasedTraining(
+        dict(cs), metric=METRIC, mode=spec.get("mode", "min"), resource_attr=RES, max_t=max_t,
+        population_size=spec["population_size"], perturbation_interval=spec.get("perturbation_interval", 1),
+        quantile_fraction=spec["quantile_fraction"], resample_probability=spec["resample_probability"],
+        random_seed=spec["seed"] % 100000, points_to_evaluate=spec.get("p2e"))
+    tape, flag = [], {"on": False}
+    rs = _RandRecorder(sch._random_state, tape)
+    sch._random_state = rs
+    for d in sch.config_space.values():
+        if isinstance(d, Domain):
+            _wrap_sample(d, tape, flag)
+    lines, events = [], []
+    hdr = {"stream": "searcher", "kind": "pbt", "space": model_space(sch.config_space),
+           "up": frac_str(1.2), "down": frac_str(0.8), "resample": frac_str(float(spec["resample_probability"]))}
+    from syne_tune.config_space import config_space_size
+    lines.append((hdr, {"size": config_space_size(sch.config_space)}))
+    real_explore = sch._explore
+
+    def explore(config):
+        del tape[:]
+        flag["on"] = rs.active = True
+        try:
+            new = real_explore(config)
+        finally:
+            flag["on"] = rs.active = False
+        hints = []
+        for k, d in sch.config_space.items():
+            if isinstance(d, FiniteRange) and new[k] in d.values:
+                hints.append([k, d.values.index(new[k])])
+        try:
+            inp = {"op": "explore", "config": enc_config(config), "tape": list(tape), "hints": hints}
+            lines.append((inp, {"explored": enc_config(new)}))
+        except TypeError as e:  # value of a type the wire cannot carry: left to the monitor
+            events.append({"ev": "explore-unencodable", "why": str(e)})
+        events.append({"ev": "explore", "old": dict(config), "new": dict(new)})
+        return new
+
+    sch._explore = explore
+    trials, running = {}, {}
+    next_tid = 0
+    for _ in range(spec["n_events"]):
+        if len(running) < spec["population_size"] and (not running or rng.random() < 0.5):
+            sg = sch.suggest(next_tid)
+            if sg is None:
+                events.append({"ev": "none"})
+                break
+            tid = next_tid
+            next_tid += 1
+            trials[tid] = Trial(tid, sg.config, EPOCH0)
+            sch.on_trial_add(trials[tid])
+            running[tid] = 1
+            events.append({"ev": "suggest", "trial": tid, "config": dict(sg.config), "level": "scheduler",
+                           "from_checkpoint": sg.checkpoint_trial_id})
+        elif running:
+            tid = rng.choice(sorted(running))
+            r = running[tid]
+            res = {METRIC: rng.randrange(0, 64) / 64.0, RES: r}
+            d = sch.on_trial_result(trials[tid], dict(res))
+            if d != "CONTINUE":
+                sch.on_trial_remove(trials[tid])
+                del running[tid]
+            else:
+                running[tid] = r + 1
+            events.append({"ev": "result", "trial": tid})
+    return {"lines": lines, "events": events, "cs": sch.config_space, "sched": sch, "hp_cs": cs}
+
+
+# ---------------------------------------------------------------------------------
+# GP searchers: final exclusion filter of the BO loop, state codec; suggestions monitored
+
+
+def to_tagged(x):
+    if x is None:
+        return {"t": "null"}
+    if isinstance(x, (bool, np.bool_)):
+        raise TypeError("bool in state")
+    if isinstance(x, (int, np.integer)):
+        return {"t": "int", "v": int(x)}
+    if isinstance(x, (float, np.floating)):
+        if x == 0 and math.copysign(1.0, float(x)) < 0:
+            return {"t": "nzero"}
+        return {"t": "num", "v": frac_str(float(x))}
+    if isinstance(x, str):
+        return {"t": "str", "v": x}
+    if isinstance(x, (list, tuple)):
+        return {"t": "arr", "v": [to_tagged(y) for y in x]}
+    if isinstance(x, dict):
+        return {"t": "obj", "v": [[str(k), to_tagged(v)] for k, v in x.items()]}
+    raise TypeError(f"cannot encode {type(x)}")
+
+
+def run_gp_scenario(spec):
+    """spec: {"space", "seed", "sched": "fifo"|"hb-stopping"|"hb-promotion", "n_suggest", "num_init_random",
+              "p2e", "p_fail", "allow_duplicates"}"""
+    import syne_tune.optimizer.schedulers.searchers.bayesopt.tuning_algorithms.bo_algorithm as bo
+    from syne_tune.optimizer.schedulers.searchers.gp_searcher_utils import decode_state, encode_state
+
+    rng = random.Random(spec["seed"])
+    cs = build_space(spec["space"])
+    max_t = 9
+    so = {"num_init_random": spec["num_init_random"], "debug_log": False, "num_init_candidates": spec.get("num_init_candidates", 12),
+          "opt_maxiter": 8, "opt_nstarts": 1, "allow_duplicates": spec.get("allow_duplicates", False)}
+    common = dict(searcher="bayesopt", metric=METRIC, mode="min", random_seed=spec["seed"] % 100000,
+                  search_options=so, points_to_evaluate=spec.get("p2e"))
+    if spec["sched"] == "fifo":
+        sch = FIFOScheduler(dict(cs), **common)
+    else:
+        sch = HyperbandScheduler(dict(cs), resource_attr=RES, max_t=max_t, grace_period=1, reduction_factor=3,
+                                 type=spec["sched"].split("-")[1], **common)
+    lines, events = [], []
+    from syne_tune.config_space import config_space_size
+    hdr = {"stream": "searcher", "kind": "stateless", "space": model_space(cs)}
+    lines.append((hdr, {"size": config_space_size(cs)}))
+    real_pick = bo._pick_from_locally_optimized
+    picks = []
+
+    def rec_pick(candidates_with_optimization, exclusion_candidates, num_candidates, duplicate_detector):
+        seen = []
+
+        def gen():
+            for o, p in candidates_with_optimization:
+                seen.append((dict(o), dict(p)))
+                yield o, p
+
+        excl = sorted(exclusion_candidates.excl_set)
+        res = real_pick(gen(), exclusion_candidates, num_candidates, duplicate_detector)
+        picks.append((excl, seen, num_candidates, [dict(c) for c in res]))
+        return res
+
+    bo._pick_from_locally_optimized = rec_pick
+    try:
+        trials, running = {}, {}
+        next_tid, n_sg = 0, 0
+        while n_sg < spec["n_suggest"]:
+            if running and rng.random() < 0.55:
+                tid = rng.choice(sorted(running))
+                if rng.random() < spec.get("p_fail", 0):
+                    sch.on_trial_error(trials[tid])
+                    del running[tid]
+                    events.append({"ev": "failed", "trial": tid})
+                    continue
+                r = running[tid]
+                lat = (hash_float(spec["seed"], tid) + rng.randrange(-8, 9) / (64.0 * r))
+                res = {METRIC: lat, RES: r}
+                d = sch.on_trial_result(trials[tid], dict(res))
+                if d != "CONTINUE":
+                    sch.on_trial_remove(trials[tid])
+                    del running[tid]
+                elif r >= max_t or spec["sched"] == "fifo":
+                    sch.on_trial_complete(trials[tid], dict(res))
+                    del running[tid]
+                else:
+                    running[tid] = r + 1
+                events.append({"ev": "result", "trial": tid})
+                continue
+            del picks[:]
+            sg = sch.suggest(next_tid)
+            n_sg += 1
+            for excl, seen, num, res in picks:
+                try:
+                    inp = {"op": "bo_pick", "excl": excl, "num": int(num),
+                           "pairs": [[enc_config(o), enc_config(p)] for o, p in seen]}
+                    lines.append((inp, {"result": [enc_config(c) for c in res]}))
+                except TypeError as e:
+                    events.append({"ev": "pick-unencodable", "why": str(e)})
+                events.append({"ev": "bo_pick", "excl": excl, "result": res, "pairs": seen})
+            if sg is None:
+                events.append({"ev": "none", "excl": sorted(sch.searcher._get_exclusion_candidates().excl_set)})
+                break
+            if not sg.spawn_new_trial_id:
+                rt = int(sg.checkpoint_trial_id)
+                running[rt] = running.get(rt, 1)
+                events.append({"ev": "resume", "trial": rt})
+                continue
+            tid = next_tid
+            next_tid += 1
+            trials[tid] = Trial(tid, sg.config, EPOCH0)
+            sch.on_trial_add(trials[tid])
+            running[tid] = 1
+            events.append({"ev": "suggest", "trial": tid, "config": dict(sg.config), "level": "scheduler",
+                           "model_based": bool(picks)})
+            if rng.random() < 0.3:
+                # state codec on the live bookkeeping state
+                st = sch.searcher.state_transformer.state
+                enc = encode_state(st)
+                dec = decode_state(pickle.loads(pickle.dumps(enc)), sch.searcher._hp_ranges_in_state())
+                try:
+                    out = {"reenc": to_tagged(encode_state(dec)),
+                           "pending": [[str(p.trial_id), None if p.resource is None else int(p.resource)] for p in dec.pending_evaluations],
+                           "failed": [str(t) for t in dec.failed_trials],
+                           "observed": [str(e.trial_id) for e in dec.trials_evaluations],
+                           "all_ms": sorted(sch.searcher._get_exclusion_candidates().excl_set)}
+                    lines.append(({"op": "codec", "enc": to_tagged(enc)}, out))
+                    events.append({"ev": "codec", "equal": bool(dec == st)})
+                except TypeError as e:
+                    events.append({"ev": "codec-unencodable", "why": str(e)})
+    finally:
+        bo._pick_from_locally_optimized = real_pick
+    return {"lines": lines, "events": events, "cs": cs, "sched": sch, "hp_cs": cs}
+
+
+def hash_float(seed, tid):
+    return random.Random(seed * 7919 + tid).randrange(0, 64) / 64.0
